@@ -24,7 +24,7 @@ CO_ASSUME = [
 ]
 
 PROPS = {
-    "C01": dict(monitor="C01", proj="C01", modules=["C01", "C01seq", "C01g", "C01nest", "C01live"], monitors=["C01", "LV"], cfgs=ALL3, quick=900, thorough=12000,
+    "C01": dict(monitor="C01", proj="C01", modules=["C01", "C01seq", "C01g", "C01nest", "C01live", "C01live2"], monitors=["C01", "LV"], cfgs=ALL3, quick=900, thorough=12000,
                 gens=[(ALL_FIXED, "drain", 0.5), (GROUPS, "drain", 0.3), (["join", "try_join", "race", "race_ok", "merge", "zip", "chain"], "exh", 0.4), (["nest"], "random", 0.35), (["nest"], "stuck", 0.1), (ALL_FIXED, "random", 1.0), (GROUPS, "random", 0.4), (GROUPS, "refill", 0.3), (CONC, "stuck", 0.3),
                       (["join", "try_join", "merge", "zip", "race", "chain"], "big", 0.05),
                       (["join", "try_join", "merge", "zip"], "waves", 0.08)],
@@ -91,13 +91,13 @@ PROPS = {
                       (["sgroup"], "panic", 0.2), (["sgroup"], "refill", 0.5), (["sgroup"], "drain", 0.5)],
                 assumptions=COMMON_ASSUME + ["every inserted stream is a new object (Case.insertsFresh) of the right "
                                              "kind (Case.kindOk)"]),
-    "C13": dict(monitor="C13", proj="CO", cfgs=["std", "alloc"], quick=4000, thorough=60000,
+    "C13": dict(monitor="C13", proj="CO", cfgs=["std-co", "alloc-co"], quick=4000, thorough=60000,
                 gens=[(["co"], "random", 1.0), (["co"], "stuck", 0.3), (["co"], "errs", 0.2)],
                 assumptions=CO_ASSUME),
-    "C14": dict(monitor="C14", proj="CO", cfgs=["std", "alloc"], quick=4000, thorough=60000,
+    "C14": dict(monitor="C14", proj="CO", cfgs=["std-co", "alloc-co"], quick=4000, thorough=60000,
                 gens=[(["co"], "errs", 1.0), (["co"], "random", 0.5), (["co"], "stuck", 0.2)],
                 assumptions=CO_ASSUME),
-    "C15": dict(monitor="C15", proj="CO", cfgs=["std", "alloc"], quick=4000, thorough=60000,
+    "C15": dict(monitor="C15", proj="CO", cfgs=["std-co", "alloc-co"], quick=4000, thorough=60000,
                 gens=[(["co"], "random", 1.0), (["co"], "stuck", 0.3), (["co"], "errs", 0.2)],
                 assumptions=CO_ASSUME),
     "C18": dict(monitor="C18", proj="-", cfgs=["std", "alloc", "nostd"], quick=1, thorough=1, gens=[],
